@@ -436,20 +436,12 @@ Definition bx_clone (J : list (list val)) (p : option nat) : list (list val) * o
 Definition opn_eqb (a b : option nat) : bool :=
   match a, b with Some x, Some y => x =? y | None, None => true | _, _ => false end.
 
-Definition clone_obj (grow : nat -> nat -> nat) (tbl : ctbl) (H : heap) (o : obj) : heap * obj :=
-  (* the wrapper chains are rebuilt from the (possibly shared) slices as found at Clone time *)
-  let rtw := sl_read (arrs H) (nth F_RTW (o_sl o) None) in
-  let trw := sl_read (arrs H) (nth F_TRW (o_sl o) None) in
-  let chain := match rtw with [] => o_chain o | _ => Some rtw end in
-  let tchain := match trw with [] => None | _ => Some trw end in
-  let '(A1, sls) := clone_sls (t_sl tbl) (arrs H) (o_sl o) in
-  let '(M1, mps) := clone_mps (t_mp tbl) (maps H) (o_mp o) in
-  let H1 := with_maps (with_arrs H A1) M1 in
-  let '(H2, rt) := if t_rt tbl then rt_clone grow H1 (o_rt o) else (H1, o_rt o) in
+(* the boxes of a clone: cookie jar, TLS config, dumpOptions, the Dumper's options *)
+Definition clone_boxes (tbl : ctbl) (J : list (list val)) (o : obj) : list (list val) * option nat * oext :=
   (* initCookieJar: a factory makes a fresh jar, otherwise the http.Client copy keeps the pointer *)
-  let '(H3, jar) := if o_fact o && t_jar tbl then (with_jars H2 (jars H2 ++ [[]]), Some (length (jars H2))) else (H2, o_jar o) in
+  let '(J3, jar) := if o_fact o && t_jar tbl then (J ++ [[]], Some (length J)) else (J, o_jar o) in
   (* Options.Clone: TLSClientConfig *)
-  let '(J4, tls) := if t_tls tbl then bx_clone (jars H3) (e_tls (o_ext o)) else (jars H3, e_tls (o_ext o)) in
+  let '(J4, tls) := if t_tls tbl then bx_clone J3 (e_tls (o_ext o)) else (J3, e_tls (o_ext o)) in
   (* Client.dumpOptions, then the Dumper's options: the clone's own dumpOptions when the original's were
      the ones its Dumper reads, a copy of the Dumper's otherwise *)
   let '(J5, dopt) := if t_dopt tbl then bx_clone J4 (e_dopt (o_ext o)) else (J4, e_dopt (o_ext o)) in
@@ -460,11 +452,23 @@ Definition clone_obj (grow : nat -> nat -> nat) (tbl : ctbl) (H : heap) (o : obj
         if t_link tbl && opn_eqb (e_dopt (o_ext o)) (Some b) then (J5, dopt)
         else if t_dumper tbl then bx_clone J5 (Some b) else (J5, Some b)
     end in
-  (with_jars H3 J6,
+  (J6, jar, {| e_dopt := dopt; e_dumper := dumper; e_tls := tls |}).
+
+Definition clone_obj (grow : nat -> nat -> nat) (tbl : ctbl) (H : heap) (o : obj) : heap * obj :=
+  (* the wrapper chains are rebuilt from the (possibly shared) slices as found at Clone time *)
+  let rtw := sl_read (arrs H) (nth F_RTW (o_sl o) None) in
+  let trw := sl_read (arrs H) (nth F_TRW (o_sl o) None) in
+  let chain := match rtw with [] => o_chain o | _ => Some rtw end in
+  let tchain := match trw with [] => None | _ => Some trw end in
+  let '(A1, sls) := clone_sls (t_sl tbl) (arrs H) (o_sl o) in
+  let '(M1, mps) := clone_mps (t_mp tbl) (maps H) (o_mp o) in
+  let H1 := with_maps (with_arrs H A1) M1 in
+  let '(H2, rt) := if t_rt tbl then rt_clone grow H1 (o_rt o) else (H1, o_rt o) in
+  let '(J6, jar, x) := clone_boxes tbl (jars H2) o in
+  (with_jars H2 J6,
    {| o_sl := sls; o_mp := mps; o_rt := rt; o_chain := chain; o_tchain := tchain;
       o_scal := filter (fun kv => mem (fst kv) (t_scal tbl)) (o_scal o);
-      o_jar := jar; o_fact := o_fact o; o_par := o_par o;
-      o_ext := {| e_dopt := dopt; e_dumper := dumper; e_tls := tls |} |}).
+      o_jar := jar; o_fact := o_fact o; o_par := o_par o; o_ext := x |}).
 
 (* Client.R(): a request holding a clone of the client's retry option *)
 Definition new_req (grow : nat -> nat -> nat) (H : heap) (c : nat) (co : obj) : heap * obj :=
